@@ -12,6 +12,7 @@ mod stree;
 mod capture;
 mod corp;
 mod corp_gen;
+mod jsonv;
 mod props;
 
 use std::collections::HashMap;
